@@ -29,7 +29,7 @@ class Prop(common.PropertyCheck):
             lad = rng.randrange(len(LADDERS))
             af = 0.0 if rng.random() < 0.2 else 10 ** rng.uniform(0, math.log10(5000))
             yield {'k': 'recover', 'm': rng.uniform(0.85, 1.25), 'b': rng.uniform(0, 7), 'af': af, 'ladder': lad,
-                   'drop': rng.randrange(0, 4), 'blank': rng.random() < 0.7}
+                   'drop': rng.randrange(0, 4), 'blank': rng.random() < 0.7, 'mef_form': rng.choice(['float', 'int_array', 'int_list'])}
         for _ in range(self.budget(2500, 40000)):
             yield {'k': 'struct', 'n': rng.randrange(3, 9), 'kind': rng.choice(['convex', 'convex', 'noisy', 'random', 'concave']), 'seed': rng.randrange(1 << 30)}
         for bad in ('two', 'one', 'len'):
@@ -80,7 +80,13 @@ class Prop(common.PropertyCheck):
                 else:
                     mef = np.sort(10 ** r.uniform(1, 6, size=n))
                 mef = np.maximum(mef, 1e-3)
-            sc, bm, params, model_str, names = FlowCal.mef.fit_beads_autofluorescence(rfi, mef)
+            mef_arg = mef
+            if case.get('mef_form', 'float') != 'float' and np.all(mef == np.round(mef)):
+                # ladders as the documentation writes them: integers (array or plain list)
+                mef_arg = np.array(mef, dtype=np.int64) if case['mef_form'] == 'int_array' else [int(v) for v in mef]
+                rfi = rfi if case['mef_form'] == 'int_array' else [float(v) for v in rfi]
+            sc, bm, params, model_str, names = FlowCal.mef.fit_beads_autofluorescence(rfi, mef_arg)
+            rfi = np.asarray(rfi, dtype=float)
             p = [float(v) for v in params]
             grid = np.concatenate([np.linspace(rfi.min(), rfi.max(), 25), rfi])
             xs = np.concatenate([grid, -grid, [0.0]])
